@@ -25,6 +25,7 @@ pub mod c18;
 pub mod c19;
 pub mod c20;
 pub mod scale;
+pub mod mid;
 
 pub fn gen(prop: &str, g: &mut Gen) {
     match prop {
@@ -51,6 +52,7 @@ pub fn gen(prop: &str, g: &mut Gen) {
         _ => panic!("unknown property {}", prop),
     }
     scale::gen_for(prop, g);
+    mid::gen_for(prop, g);
 }
 
 pub fn exec(words: &[&str], obs: &mut Obs) -> Option<String> {
@@ -76,6 +78,7 @@ pub fn exec(words: &[&str], obs: &mut Obs) -> Option<String> {
         .or_else(|| c19::exec(words, obs))
         .or_else(|| c20::exec(words, obs))
         .or_else(|| scale::exec(words, obs))
+        .or_else(|| mid::exec(words, obs))
 }
 
 pub fn tables() -> String {
